@@ -52,6 +52,16 @@ def oscarCtor (f : FileF) : Except Err Loaded := do
   impactOk f L
   pure L
 
+/-- a constructor filter that keeps everything: `filters={}` or only `False` switches such as
+`{'charged_particles': False}` (`__apply_kwargs_filters` returns the event unchanged) -/
+def idFilter : EvFilter := fun d => .ok d
+
+/-- `Oscar(path, filters={})` / `Oscar(path, filters={'charged_particles': False})` -/
+def oscarCtorF (f : FileF) : Except Err Loaded := do
+  let L ← readOscar f .all (some idFilter)
+  impactOk f L
+  pure L
+
 /-- `JetscapeLoader.get_sigmaGen` : the first two words of the stripped last line that `float()` accepts -/
 def sigmaOk (f : FileF) : Except Err Unit := do
   let l ← lastLine f
@@ -61,6 +71,12 @@ def sigmaOk (f : FileF) : Except Err Unit := do
 /-- `Jetscape(path, particletype=…)` -/
 def jetscapeCtor (f : FileF) (partons : Bool) : Except Err Loaded := do
   let L ← readJetscape f .all partons none
+  sigmaOk f
+  pure L
+
+/-- `Jetscape(path, filters={})` -/
+def jetscapeCtorF (f : FileF) (partons : Bool) : Except Err Loaded := do
+  let L ← readJetscape f .all partons (some idFilter)
   sigmaOk f
   pure L
 
